@@ -455,13 +455,16 @@ fn c03(seed: u64, _cases: usize, _model_path: &str) -> serde_json::Value {
     let fields: Vec<(&str, &str, u8)> = vec![
         ("wire shares", "bit", 2), ("wire shares", "mac", 2), ("wire shares", "missing", 2), ("wire shares", "bit2", 2),
         ("masked inputs", "claim_victim_wire", 2), ("masked inputs", "equivocate", 2),
+        // an equivocating EVALUATOR that also tells the victim the output value that fits the victim's view (two coordinated messages): the labels it
+        // holds for the victim then belong to that value, so only the broadcast check can stop it
+        ("masked inputs", "equivocate+lambda", 1),
         ("labels", "label", 0), ("preprocessed gates", "row_byte", 0),
         ("output wire shares", "bit", 2), ("output wire shares", "mac", 2), ("output wire shares", "missing", 2), ("output wire shares", "bit2", 2),
         ("lambda", "value", 1), ("lambda", "label", 1), ("lambda", "missing", 1), ("lambda", "value2", 1)];
     // `bit2` / `value2`: TWO authenticated bits of one message are flipped and the MACs / labels kept — a check on an aggregate would let them cancel.
     for n in [2usize, 3] { for &(phase, field, role) in &fields { for adv_is_eval in [false, true] {
         if (role == 0 && adv_is_eval) || (role == 1 && !adv_is_eval) { continue; }
-        if field == "equivocate" && n == 2 { continue; }
+        if field.starts_with("equivocate") && n == 2 { continue; }
         for rep in 0..3 {
             // roles rotate with `rep`: (adversary, victim) = (1,0), (0,n-1), (n-1, n-2 or 0): the victim's index is below, above and (n = 3) between
             let (adv, victim) = match (rep, n) { (0, _) => (1usize, 0usize), (1, _) => (0, n - 1), (_, 2) => (1, 0), _ => (2, 1) };
@@ -472,21 +475,26 @@ fn c03(seed: u64, _cases: usize, _model_path: &str) -> serde_json::Value {
             let mut insts: Vec<Inst> = vec![];
             for p in 0..n { for k in 0..ir[p] { insts.push(Inst { out: Reg(base[p] + k as u32), op: Op::Input(Input { party: p as u32, input: k as u32 }) }); } }
             let om = n as u32 + 1; let (v0, v1, aw) = (base[victim], base[victim] + 1, base[adv]);
-            insts.push(Inst { out: Reg(om), op: Op::And(And(Reg(v0), Reg(aw))) }); insts.push(Inst { out: Reg(om), op: Op::Xor(Xor(Reg(om), Reg(v1))) });
+            if field == "equivocate+lambda" { // the equivocated wire feeds only XOR gates: out = (v0 & v1) ^ a ^ others — no row is decrypted with its label
+                insts.push(Inst { out: Reg(om), op: Op::And(And(Reg(v0), Reg(v1))) }); insts.push(Inst { out: Reg(om), op: Op::Xor(Xor(Reg(om), Reg(aw))) }); }
+            else { insts.push(Inst { out: Reg(om), op: Op::And(And(Reg(v0), Reg(aw))) }); insts.push(Inst { out: Reg(om), op: Op::Xor(Xor(Reg(om), Reg(v1))) }); }
             for q in 0..n { if q != adv && q != victim { insts.push(Inst { out: Reg(om), op: Op::Xor(Xor(Reg(om), Reg(base[q]))) }); } }
             let c = Circuit { input_regs: ir.clone(), insts, max_reg_count: n + 2, output_regs: vec![Reg(om), Reg(v0)], and_ops: 1 };
-            let inputs: Vec<Vec<bool>> = (0..n).map(|p| (0..ir[p]).map(|_| r.bool()).collect()).collect();
+            let mut inputs: Vec<Vec<bool>> = (0..n).map(|p| (0..ir[p]).map(|_| r.bool()).collect()).collect();
+            if field == "equivocate+lambda" { inputs[victim][0] = true; }       // the adversary's input then decides the first output
             let p_eval = if adv_is_eval { adv } else { victim }; let p_out: Vec<usize> = (0..n).collect();
             let args: Vec<PartyArgs> = (0..n).map(|p| PartyArgs { inputs: inputs[p].clone(), p_eval, p_own: p, p_out: p_out.clone(), tmp_dir: None }).collect();
             let (ph, fl) = (phase.to_string(), field.to_string()); let nn = om as usize; let (v0, v1, aw) = (v0 as usize, v1 as usize, aw as usize);
-            let m: exec::Mutator = Box::new(move |from, to, p, k, d| { if from != adv || p != ph || k != 0 { return Some(d); }
+            let m: exec::Mutator = Box::new(move |from, to, p, k, d| {
+                if fl == "equivocate+lambda" && from == adv && to == victim && p == "lambda" && k == 0 { let mut v: Vec<Option<(bool, u128)>> = de(&d); if let Some(e) = v[nn].as_mut() { e.0 = !e.0; } return Some(ser(&v)); }
+                if from != adv || p != ph || k != 0 { return Some(d); }
                 let to_victim = to == victim;
                 Some(match (ph.as_str(), fl.as_str()) {
                     ("wire shares", f) | ("output wire shares", f) if to_victim => { let mut v: Vec<Option<(bool, u128)>> = de(&d); let idx = if ph == "wire shares" { v0 } else { nn };
                         let idx2 = if ph == "wire shares" { v1 } else { v0 };   // the victim's second input wire / the second output register
                         match f { "bit" => { if let Some(e) = v[idx].as_mut() { e.0 = !e.0; } } "bit2" => { for i in [idx, idx2] { if let Some(e) = v[i].as_mut() { e.0 = !e.0; } } } "mac" => { if let Some(e) = v[idx].as_mut() { e.1 ^= 1 << 77; } } _ => v[idx] = None } ser(&v) }
                     ("masked inputs", "claim_victim_wire") if to_victim => { let mut v: Vec<Option<bool>> = de(&d); v[v0] = Some(true); ser(&v) }
-                    ("masked inputs", "equivocate") if to_victim => { let mut v: Vec<Option<bool>> = de(&d); if let Some(b) = v[aw].as_mut() { *b = !*b; } ser(&v) }
+                    ("masked inputs", "equivocate") | ("masked inputs", "equivocate+lambda") if to_victim => { let mut v: Vec<Option<bool>> = de(&d); if let Some(b) = v[aw].as_mut() { *b = !*b; } ser(&v) }
                     // the label of a wire that feeds the AND gate: the evaluator consumes it as an AEAD key (a label that only reaches XOR gates is consumed by nobody but the garbler itself)
                     ("labels", _) if to_victim => { let mut v: Vec<Option<u128>> = de(&d); if let Some(l) = v[v0].as_mut() { *l ^= 1; } ser(&v) }
                     ("preprocessed gates", _) if to_victim => { let mut v: Vec<[Vec<u8>; 4]> = de(&d); for row in v[0].iter_mut() { row[5] ^= 0x80; } ser(&v) }
@@ -496,6 +504,7 @@ fn c03(seed: u64, _cases: usize, _model_path: &str) -> serde_json::Value {
             let run = exec::run(&c, &args, &cfg, Some(m)); execs += 1; let o = &run.outs[victim];
             *dist.entry(format!("field:{phase}/{field}")).or_default() += 1; *dist.entry(format!("n:{n}")).or_default() += 1; *dist.entry(format!("outcome:{}", ["ok", "err", "panic", "blocked"][okind(o) as usize])).or_default() += 1;
             distinct.insert((n, phase, field, adv_is_eval, adv, victim)); *dist.entry(format!("adv->victim:{adv}->{victim}")).or_default() += 1;
+            if std::env::var("VERIF_DEBUG").is_ok() && field.starts_with("equivocate") { eprintln!("DEBUG {field} n={n} adv={adv} victim={victim} eval={adv_is_eval}: {:?}", run.outs.iter().map(short).collect::<Vec<_>>()); }
             let desc = json!({"n": n, "phase": phase, "field": field, "adversary": format!("{}({adv})", if adv_is_eval { "evaluator" } else { "garbler" }), "victim": victim, "inputs": inputs.iter().map(|v| circ::bits(v)).collect::<Vec<_>>(), "rep": rep});
             // C02 oracle: Ok must be f(x_H, x') for some x'
             if let Out::Ok(v) = o { let allowed: Vec<Vec<bool>> = [false, true].iter().map(|x1| { let mut i = inputs.clone(); i[adv] = vec![*x1]; c.eval(&i) }).collect();
@@ -506,6 +515,24 @@ fn c03(seed: u64, _cases: usize, _model_path: &str) -> serde_json::Value {
                 other => failures.push(json!({"property": "C03", "witness": if phase == "output wire shares" && field == "missing" { "C02-a:missing-output-share" } else { "C03:accepted" }, "failure": format!("run completed on a value whose authentication does not verify: {}", short(other)), "case": desc})) }
             if samples.len() < 3 { samples.push(desc.clone()); }
         } } } }
+    // ---- a lie in PREPROCESSING told consistently: the adversary flips its share of the opened Beaver value `d` of the first triple in every `faand`
+    // message it sends (MAC kept) and flips one incoming share the same way, so that its own view agrees with the value the honest parties now hold.
+    // If the opening is accepted, every party works with a consistent, correctly MACed, WRONG triple: nothing later can notice, and the AND gate
+    // computes (x & y) ^ mask. The victim's input is false, so the only admissible output is false.
+    for n in [2usize, 3] { for (adv, victim) in [(1usize, 0usize), (0, n - 1)] { for which in [8usize, 9] { for rep in 0..4 {
+        let insts: Vec<Inst> = (0..n).map(|p| Inst { out: Reg(p as u32), op: Op::Input(Input { party: p as u32, input: 0 }) }).chain(std::iter::once(Inst { out: Reg(n as u32), op: Op::And(And(Reg(victim as u32), Reg(adv as u32))) })).collect();
+        let c = Circuit { input_regs: vec![1; n], insts, max_reg_count: n + 1, output_regs: vec![Reg(n as u32)], and_ops: 1 };
+        let mut inputs: Vec<Vec<bool>> = (0..n).map(|_| vec![r.bool()]).collect(); inputs[victim][0] = false; inputs[adv][0] = true;
+        let args: Vec<PartyArgs> = (0..n).map(|p| PartyArgs { inputs: inputs[p].clone(), p_eval: if rep % 2 == 0 { victim } else { adv }, p_own: p, p_out: (0..n).collect(), tmp_dir: None }).collect();
+        let m: exec::Mutator = Box::new(move |from, _to, p, k, mut d| { if from == adv && p == "faand" && k == 0 && d.len() > which && d[which] <= 1 { d[which] ^= 1; } Some(d) });
+        let seen = std::rc::Rc::new(std::cell::Cell::new(false)); let seen2 = seen.clone();
+        exec::set_recv_rewrite(Some(Box::new(move |at, _from, p, mut d| { if at == adv && p == "faand" && !seen2.get() && d.len() > which && d[which] <= 1 { seen2.set(true); d[which] ^= 1; } d })));
+        let run = exec::run(&c, &args, &cfg, Some(m)); execs += 1; exec::set_recv_rewrite(None);
+        let o = &run.outs[victim]; *dist.entry("field:faand/consistent-lie".into()).or_default() += 1; distinct.insert((n, "faand", if which == 8 { "consistent-d" } else { "consistent-e" }, rep % 2 == 1, adv, victim));
+        let desc = json!({"n": n, "phase": "faand", "field": if which == 8 { "d of the first triple, told consistently" } else { "e of the first triple, told consistently" }, "adversary": adv, "victim": victim, "victim_is_evaluator": rep % 2 == 0, "inputs": inputs.iter().map(|v| circ::bits(v)).collect::<Vec<_>>()});
+        if let Out::Ok(v) = o { if v != &vec![false] { failures.push(json!({"property": "C02", "witness": "C02:consistent-preprocessing-lie", "failure": format!("honest party accepted {} although its own input false forces the output false", circ::bits(v)), "case": desc.clone()})); } }
+        if let Out::Panic(msg) = o { failures.push(json!({"property": "C03", "witness": "C03:panic", "failure": format!("victim panicked: {msg}"), "case": desc})); }
+    } } } }
     // ---- "the share it garbles into a row": a malicious GARBLER produces validly encrypted rows whose share bit is flipped (MACs and label share kept).
     // Two AND gates over the input wires, so one gate's rows or both gates' rows can lie (a check folded over gates would let two lies cancel).
     // Keys from the garbler's own taps as in the C08 class: key = x-label ‖ y-label, x offset by delta in rows 2,3, y in rows 1,3; nonce = instruction ‖ row.
@@ -897,6 +924,11 @@ fn c06(seed: u64, cases: usize, model_path: &str, which: &str) -> serde_json::Va
         // ---- C06 balance: revealed masked bit of party 0's wire 0, XOR the share party 1 sent for that wire
         let masked: Vec<Option<bool>> = run.payloads.iter().find(|(f, t, ph, _)| *f == 0 && *t == 1 && ph == "masked inputs").map(|p| de(&p.3)).unwrap();
         let ws: Vec<Option<(bool, u128)>> = run.payloads.iter().find(|(f, t, ph, _)| *f == 1 && *t == 0 && ph == "wire shares").map(|p| de(&p.3)).unwrap();
+        // ---- nothing but the masked value may ever leave about an input wire: a party's OWN share of an input wire's mask (bit and MAC) opened to
+        // anybody unmasks the input for that recipient. The output phase opens shares: only at output registers (here: register 130).
+        for (f, t, ph, d) in run.payloads.iter() { if ph == "output wire shares" { let v: Vec<Option<(bool, u128)>> = de(d);
+            let extra: Vec<usize> = v.iter().enumerate().filter(|(w, e)| e.is_some() && *w != 130).map(|(w, _)| w).collect();
+            if !extra.is_empty() && failures.len() < 3 { failures.push(json!({"witness": "C06:own-mask-share-opened", "failure": format!("party {f} opened to party {t} its shares of the masks of registers {:?} (input wires among them), which are not outputs: masked input ^ all shares = the input", &extra[..extra.len().min(6)]), "case": {"run": run_i}})); } } }
         let combined = masked[0].unwrap() ^ ws[0].unwrap().0;              // = x ^ own share: must be balanced for x = 0 and for x = 1
         tot[x as usize] += 1; ones[x as usize] += combined as u64;
         // ---- every input wire of party 0 (129 wires: indices on both sides of 64 and 128): its own mask share = revealed ^ peer's share ^ input
@@ -1101,13 +1133,14 @@ fn c07m(seed: u64, cases: usize, model_path: &str) -> serde_json::Value {
     use std::{cell::RefCell, rc::Rc};
     std::panic::set_hook(Box::new(|_| {}));
     let mut r = Rng::new(seed); let mut m = Model::spawn(model_path).expect("spawn ptmodel"); let mut disagreements = vec![]; let mut failures = vec![]; let mut samples = vec![]; let mut distinct = std::collections::BTreeSet::new(); let mut execs = 0u64; let mut compared = 0u64;
-    for case in 0..cases { let n = r.range(2, 3) as usize; let lie = case % 2 == 1; let lie_positions: Vec<usize> = if lie { vec![r.below(40) as usize, r.below(40) as usize] } else { vec![] };
+    for case in 0..cases { let n = r.range(2, 3) as usize; let lie = case % 3 != 0; let noncanon = case % 3 == 2;   // noncanon: the claimed bit is sent as the byte 2 or 3 (a value no honest party sends)
+        let lie_positions: Vec<usize> = if lie { vec![r.below(40) as usize, r.below(40) as usize] } else { vec![] };
         let insts: Vec<Inst> = (0..n).map(|p| Inst { out: Reg(p as u32), op: Op::Input(Input { party: p as u32, input: 0 }) }).chain(std::iter::once(Inst { out: Reg(n as u32), op: Op::And(And(Reg(0), Reg(1))) })).collect();
         let c = Circuit { input_regs: vec![1; n], insts, max_reg_count: n + 1, output_regs: vec![Reg(n as u32)], and_ops: 1 };
         let args: Vec<PartyArgs> = (0..n).map(|p| PartyArgs { inputs: vec![r.bool()], p_eval: 0, p_own: p, p_out: vec![0], tmp_dir: None }).collect();
         let seen: Rc<RefCell<(BTreeMap<usize, Vec<Vec<u8>>>, Vec<u128>)>> = Default::default(); let s2 = seen.clone(); let lp = lie_positions.clone();
         let mutator: exec::Mutator = Box::new(move |from, to, ph, k, d| { if k != 0 { return Some(d); }
-            if to == 0 && ph == "fashare ver" { let mut v: Vec<Vec<u8>> = de(&d); if from == 1 { for &rr in &lp { v[rr][0] ^= 1; } } s2.borrow_mut().0.insert(from, v.clone()); return Some(ser(&v)); }
+            if to == 0 && ph == "fashare ver" { let mut v: Vec<Vec<u8>> = de(&d); if from == 1 { for &rr in &lp { if noncanon { v[rr][0] |= 2; } else { v[rr][0] ^= 1; } } } s2.borrow_mut().0.insert(from, v.clone()); return Some(ser(&v)); }
             if from == 0 && to == 1 && ph == "fashare di_bi" { s2.borrow_mut().1 = de(&d); } Some(d) });
         let taps: Rc<RefCell<Vec<(String, usize, Vec<u128>)>>> = Default::default(); let t2 = taps.clone();
         polytune::verif::set_sink(Some(Box::new(move |k, p, v| t2.borrow_mut().push((k.to_string(), p, v.to_vec())))));
@@ -1123,7 +1156,8 @@ fn c07m(seed: u64, cases: usize, model_path: &str) -> serde_json::Value {
             if model != format!("opened {:x}", seen.1[rr]) { disagreements.push(json!({"position": rr, "real": format!("{:x}", seen.1[rr]), "model": model, "lie": lie, "n": n})); break; }
             // what the peers can compute: XOR of the MACs they hold on their TRUE bits = truthful opening; opened ^ that = 0 or delta
             if lie && lie_positions.contains(&rr) && n == 2 { let mac_on_wire = u128::from_be_bytes(seen.0[&1][rr][1..17].try_into().unwrap()); leaked.push(seen.1[rr] ^ mac_on_wire == delta0); } }
-        if lie && n == 2 && !leaked.is_empty() && leaked.iter().all(|x| *x) { failures.push(json!({"property": "C07", "witness": "C07-a:ashare-check-bit-lie", "failure": "a misreported aShare check bit makes the honest party open d0^delta: opened XOR the MAC the peer holds equals the honest party's global key (tap)", "positions": lie_positions})); }
+        if lie && noncanon && n == 2 && leaked.iter().any(|x| *x) { failures.push(json!({"property": "C07", "witness": "C07:ashare-noncanonical-bit-leak", "failure": "a check bit sent as the byte 2/3 is read one way by the verification and another way by the choice of the opening: opened XOR the MAC the peer holds equals the honest party's global key (tap)", "positions": lie_positions})); }
+        else if lie && n == 2 && !leaked.is_empty() && leaked.iter().all(|x| *x) { failures.push(json!({"property": "C07", "witness": "C07-a:ashare-check-bit-lie", "failure": "a misreported aShare check bit makes the honest party open d0^delta: opened XOR the MAC the peer holds equals the honest party's global key (tap)", "positions": lie_positions})); }
         if samples.len() < 2 { samples.push(json!({"n": n, "lie": lie, "positions_compared": 40})); }
     }
     // ---- leaky-AND: a peer lies about its (unauthenticated) `e` bits in `flaand`; the victim then opens its check value H in `flaand hash`.
